@@ -194,6 +194,140 @@ func HandleE1(c *core.Check, st core.State) {
 	c.Count("evaluations", 1)
 	if rec, p := core.Guard(func() { StaticVsEval(c, src, expr, e1.Fam(v.Node), vec) }); p {
 		c.Violation("panic/"+e1.Fam(v.Node), fmt.Sprintf("static analysis of %q panicked: %v", src, rec), vec)
+		return
+	}
+	if strings.Contains(src, "\n") {
+		return
+	}
+	// the JSON syntax: the expression as a template string, tuples as arrays, objects as objects
+	if rec, p := core.Guard(func() { jsonStatic(c, v.Node, src, expr, vec) }); p {
+		c.Violation("panic/json/"+e1.Fam(v.Node), fmt.Sprintf("static analysis of the JSON form of %q panicked: %v", src, rec), vec)
+	}
+}
+
+func jsonStatic(c *core.Check, n *e1.Node, src string, native hclsyntax.Expression, vec map[string]any) {
+	ctx := e1.Ctx()
+	fam := e1.Fam(n)
+	// json/spec.md "Static Call" / "Static Traversal": the string's content is a native expression
+	// (not a template)
+	js, _ := json.Marshal(src)
+	jexpr, jd := hcljson.ParseExpression(js, "e.json")
+	if jd.HasErrors() {
+		return
+	}
+	// static traversal and static call views agree between the syntaxes
+	nt, ntd := hcl.AbsTraversalForExpr(native)
+	jt, jtd := hcl.AbsTraversalForExpr(jexpr)
+	if ntd.HasErrors() != jtd.HasErrors() {
+		kw := hcl.ExprAsKeyword(native)
+		// the JSON syntax delegates to the stand-alone traversal grammar (no legacy index, no bool/null keys)
+		_, sd := hclsyntax.ParseTraversalAbs([]byte(src), "t.hcl", hcl.InitialPos)
+		if !(kw == "true" || kw == "false" || kw == "null") && !sd.HasErrors() {
+			c.Violation("json-vs-native/traversal-existence/"+fam, fmt.Sprintf("%q: static traversal exists natively=%v, for the JSON string %s=%v", src, !ntd.HasErrors(), js, !jtd.HasErrors()), vec)
+			return
+		}
+	} else if !ntd.HasErrors() {
+		if m := travEqual(nt, jt); m != "" {
+			c.Violation("json-vs-native/traversal/"+fam, fmt.Sprintf("%q vs %s: static traversals differ: %s", src, js, m), vec)
+			return
+		}
+	}
+	ncall, ncd := hcl.ExprCall(native)
+	jcall, jcd := hcl.ExprCall(jexpr)
+	if ncd.HasErrors() != jcd.HasErrors() {
+		c.Violation("json-vs-native/call-existence/"+fam, fmt.Sprintf("%q: static call exists natively=%v, for the JSON string %s=%v", src, !ncd.HasErrors(), js, !jcd.HasErrors()), vec)
+		return
+	}
+	if !ncd.HasErrors() && (ncall.Name != jcall.Name || len(ncall.Arguments) != len(jcall.Arguments)) {
+		c.Violation("json-vs-native/call/"+fam, fmt.Sprintf("%q vs %s: static calls differ (%s/%d vs %s/%d)", src, js, ncall.Name, len(ncall.Arguments), jcall.Name, len(jcall.Arguments)), vec)
+		return
+	}
+	// a JSON array is a static list whose parts evaluate to the elements of the whole; a JSON object a static map
+	inner := n
+	for inner.K == "paren" {
+		inner = inner.Sub[0]
+	}
+	if inner.K == "tuple" {
+		var parts []string
+		for _, el := range inner.Sub {
+			b, _ := json.Marshal("${" + e1.Render(el, e1.Layout{}) + "}")
+			parts = append(parts, string(b))
+		}
+		arr := "[" + strings.Join(parts, ", ") + "]"
+		aexpr, ad := hcljson.ParseExpression([]byte(arr), "a.json")
+		if ad.HasErrors() {
+			return
+		}
+		whole, wd := aexpr.Value(ctx)
+		els, ld := hcl.ExprList(aexpr)
+		if ld.HasErrors() {
+			c.Violation("json/exprlist-missing/"+fam, fmt.Sprintf("JSON array %s has no static list view", arr), vec)
+			return
+		}
+		if !wd.HasErrors() && whole.Type().IsTupleType() {
+			if len(els) != whole.LengthInt() {
+				c.Violation("json/exprlist-length/"+fam, fmt.Sprintf("JSON array %s: ExprList has %d parts, value has %d elements", arr, len(els), whole.LengthInt()), vec)
+				return
+			}
+			for i, el := range els {
+				ev, ed := el.Value(ctx)
+				if ed.HasErrors() || !ev.RawEquals(whole.Index(cty.NumberIntVal(int64(i)))) {
+					c.Violation("json/exprlist-element/"+fam, fmt.Sprintf("JSON array %s: static part %d evaluates to %s, element is %s", arr, i, e1.Describe(ev), e1.Describe(whole.Index(cty.NumberIntVal(int64(i))))), vec)
+					return
+				}
+			}
+		}
+	}
+	if inner.K == "object" {
+		var props []string
+		for i := 0; i+1 < len(inner.Sub); i += 2 {
+			k := inner.Sub[i]
+			var kb []byte
+			if k.K == "keyid" {
+				kb, _ = json.Marshal(k.S)
+			} else {
+				kb, _ = json.Marshal("${" + e1.Render(k, e1.Layout{}) + "}")
+			}
+			vb, _ := json.Marshal("${" + e1.Render(inner.Sub[i+1], e1.Layout{}) + "}")
+			props = append(props, string(kb)+": "+string(vb))
+		}
+		obj := "{" + strings.Join(props, ", ") + "}"
+		oexpr, od := hcljson.ParseExpression([]byte(obj), "o.json")
+		if od.HasErrors() {
+			return
+		}
+		whole, wd := oexpr.Value(ctx)
+		pairs, md := hcl.ExprMap(oexpr)
+		if md.HasErrors() {
+			c.Violation("json/exprmap-missing/"+fam, fmt.Sprintf("JSON object %s has no static map view", obj), vec)
+			return
+		}
+		if !wd.HasErrors() && whole.IsKnown() && !whole.IsNull() && whole.Type().IsObjectType() {
+			want := map[string]cty.Value{}
+			for _, p := range pairs {
+				kv, kd := p.Key.Value(ctx)
+				vv, vd := p.Value.Value(ctx)
+				if kd.HasErrors() || vd.HasErrors() || kv.IsNull() || !kv.IsKnown() {
+					return
+				}
+				ks, err := convertToString(kv)
+				if err != nil {
+					return
+				}
+				want[ks] = vv
+			}
+			got := whole.AsValueMap()
+			if len(got) != len(want) {
+				c.Violation("json/exprmap-size/"+fam, fmt.Sprintf("JSON object %s: static map has %d distinct keys, value has %d attributes", obj, len(want), len(got)), vec)
+				return
+			}
+			for k, wv := range want {
+				if gv, ok := got[k]; !ok || !gv.RawEquals(wv) {
+					c.Violation("json/exprmap-entry/"+fam, fmt.Sprintf("JSON object %s: static entry %q evaluates to %s, attribute is %s", obj, k, e1.Describe(wv), e1.Describe(gv)), vec)
+					return
+				}
+			}
+		}
 	}
 }
 
